@@ -416,4 +416,5 @@ def check(ctx):
                 ok = True
         ctx.ob("R18-h", rac, f"the wake-up of `{dir_}` does not depend on the state of `{other}`", ok, node=ss[0][0], by=("reached under both states of the other direction",),
                detail="" if ok else f"`{norm(ss[0][0])}` is never reached while `self.{other}` is pending as well: with both directions blocked one task stays blocked for ever")
-        ctx.require_at("R18-h", rac, ss[0][0], [[f"self.{dir_}", f"not self.{dir_}.done()"]], instance=f"only a pending `{dir_}` is completed", what="wake-up")
+        ctx.require_at("R18-h", rac, ss[0][0], [[f"self.{dir_}", f"not self.{dir_}.done()"], [f"self.{dir_} is not None", f"not self.{dir_}.done()"]],
+                       instance=f"only a pending `{dir_}` is completed", what="wake-up")
